@@ -132,7 +132,7 @@ class BranchUpdater:
 
     def select_trunk(self, ref_names):
         """Given a set of ref names, choose one as the trunk."""
-        for candidate in ["refs/heads/master"]:
+        for candidate in [b"refs/heads/master"]:
             if candidate in ref_names:
                 return candidate
         # Use the last reference in the import stream
